@@ -236,6 +236,7 @@ def apply(node, stmts):
                     c.broken_base = True      # would be cyclic: must not be followed
                 else:
                     c.base = b
+                    c.broken_base = False    # (re)bound: `class A : B` written before B existed, re-opened as `class A : B` afterwards
             if not reopened:
                 node.entries[name.lower()] = ("class", c)
                 node.order.append(name)
@@ -355,12 +356,30 @@ def check(ws, files):
         # to terminate and the base relation has to stay acyclic
         root = Node("", None)
         qs = termination_queries() + acyclic_queries()
-    steps = [{"op": "vm", "id": 0}] + [{"op": "config", "id": 0, "text": t, "preprocess": False} for t in texts]
-    for lab, ex, want in qs:
-        steps.append({"op": "sqf", "id": 0, "text": "diag_log str [%s]" % ex})
-        steps.append({"op": "exec", "id": 0, "action": "start"})
-        steps.append({"op": "exec", "id": 0, "action": "abort"})
-    r = ws.call({"mode": "steps", "fork": True, "timeout_ms": 15000, "steps": steps}, variant="asan")
+    # fast path: all queries in one script (one diag_log per query, tagged with its index); if it does not produce every
+    # answer (a query raised an error and ended the script, crashed or hung) the queries are run one by one below
+    head = [{"op": "vm", "id": 0}] + [{"op": "config", "id": 0, "text": t, "preprocess": False} for t in texts]
+    one = ";\n".join("diag_log str [%d, %s]" % (k, ex) for k, (lab, ex, want) in enumerate(qs))
+    r = ws.call({"mode": "steps", "fork": True, "timeout_ms": 15000, "steps": head + [{"op": "sqf", "id": 0, "text": one}, {"op": "exec", "id": 0, "action": "start"}]}, variant="asan")
+    fast = None
+    if r["outcome"] == "ok":
+        outs = {}
+        for m in r["result"]["log"]:
+            if m["code"] == 60019:
+                try:
+                    v = I.parse_value(m["msg"].split("[DIAG_LOG] ", 1)[1])
+                    outs[int(v[0])] = v[1:]
+                except Exception:
+                    pass
+        if len(outs) == len(qs):
+            fast = outs
+    steps = list(head)
+    if fast is None:
+        for lab, ex, want in qs:
+            steps.append({"op": "sqf", "id": 0, "text": "diag_log str [%s]" % ex})
+            steps.append({"op": "exec", "id": 0, "action": "start"})
+            steps.append({"op": "exec", "id": 0, "action": "abort"})
+        r = ws.call({"mode": "steps", "fork": True, "timeout_ms": 15000, "steps": steps}, variant="asan")
     nontrivial = 1 if any(n.base or getattr(n, "reopened", False) for n in all_nodes(root)) or not root.entries else 0
     info = {"n": 1, "nontrivial": nontrivial, "states": 1, "transitions": len(files), "executions": 1, "queries": len(qs)}
     feat = features(files)
@@ -380,13 +399,16 @@ def check(ws, files):
     res = r["result"]
     base = 1 + len(texts)
     for k, (lab, ex, want) in enumerate(qs):
-        logs = [m for m in res["log"] if m["step"] in (base + 3 * k, base + 3 * k + 1)]
-        out = [m["msg"].split("[DIAG_LOG] ", 1)[1] for m in logs if m["code"] == 60019]
         if want is None:
             continue
-        if not out:
-            return [("C15|%s|no-result|%s" % (lab.split(" ")[0], feat), "config %r: query %s gave no result (%s)" % (texts, ex, [m["msg"][:80] for m in logs if m["lvl"] <= 1][:1]), None, files)], info
-        got = I.parse_value(out[0])[0] if out[0] != "[]" else None
+        if fast is not None:
+            got = fast[k][0] if fast[k] else None
+        else:
+            logs = [m for m in res["log"] if m["step"] in (base + 3 * k, base + 3 * k + 1)]
+            out = [m["msg"].split("[DIAG_LOG] ", 1)[1] for m in logs if m["code"] == 60019]
+            if not out:
+                return [("C15|%s|no-result|%s" % (lab.split(" ")[0], feat), "config %r: query %s gave no result (%s)" % (texts, ex, [m["msg"][:80] for m in logs if m["lvl"] <= 1][:1]), None, files)], info
+            got = I.parse_value(out[0])[0] if out[0] != "[]" else None
         if isinstance(want, tuple) and want[0] == "tail":
             names = [g for g in (got or [])]
             ok = names[-len(want[1]):] == want[1] and len(names) == len(want[1]) + 1
